@@ -477,27 +477,40 @@ const OTHER: [&str; 46] = [
     "や", "の", " ", "\n", "\t", "　", "あ", "京", "都", "に", "行", "た", "x", "😀", "é", "\r", "\u{a0}", "\u{2028}", "\u{85}", "\u{b}", " \n",
 ];
 
+/// characters that are special inside a regex / a regex character class (the detector's building blocks are regex
+/// fragments): they are ordinary text and must never act as terminator, bracket, comma or class member
+const SPECIALS: [&str; 12] = ["\\", "\\\\", "\\n", "^", "-", "*", "+", "|", "$", "\\)", "\\]", "a-z"];
+
 fn gen_text(rng: &mut Rng, maxlen: usize) -> String {
     let n = rng.below(maxlen as u64 + 1) as usize;
     let mut s = String::new();
     let mut count = 0;
     while count < n {
-        let t: &str = match rng.below(10) {
-            0..=2 => *rng.pick(&TERMS),
-            3 => {
+        // after a terminator, a bracket or a comma a special character follows quite often
+        let after_punct = s.chars().last().map(|c| is_period(c) || is_dot(c) || is_close(c) || is_open(c) || is_comma(c) || c == '>').unwrap_or(false);
+        if after_punct && rng.chance(1, 5) {
+            let t = *rng.pick(&SPECIALS);
+            s.push_str(t);
+            count += t.chars().count();
+            continue;
+        }
+        let t: &str = match rng.below(20) {
+            0..=5 => *rng.pick(&TERMS),
+            6 | 7 => {
                 let cs: Vec<char> = OPEN.chars().collect();
                 let c = *rng.pick(&cs);
                 s.push(c);
                 count += 1;
                 continue;
             }
-            4 => {
+            8 | 9 => {
                 let cs: Vec<char> = CLOSE.chars().collect();
                 let c = *rng.pick(&cs);
                 s.push(c);
                 count += 1;
                 continue;
             }
+            10 => *rng.pick(&SPECIALS),
             _ => *rng.pick(&OTHER),
         };
         s.push_str(t);
@@ -509,6 +522,8 @@ fn gen_text(rng: &mut Rng, maxlen: usize) -> String {
 /// directed shapes named by the property: itemisation headers, numbers with periods, quoting particles, nesting
 fn gen_directed(rng: &mut Rng) -> String {
     let shapes = [
+        "あいう。\\えお", "保存先はどこですか？\\\\srv\\share。次", "しました。\\n次の行。", "あ。）\\い", "あ！」、\\い。う", "あ。^い", "あ。-い", "あ。]い。",
+        "あ?|い", "あ。$い", "(あ\\)。い", "あ…*い+う。",
         "1. あいう。えお", "1.と2.が。", "1.やb.から。", "3.141", "四百十.〇", "あいう?です。", "あいう?って。", "あいう?という。", "あいう?の？です。",
         "あ（いう。え）お", "（あ（いう）。え）お", "あ（いう）。えお", "あいう?)えお", "あいう?,えお", "あいう!??", "京都に行った。東京に行った。",
         "モーニング娘。の歌。次", "ばな。なです。", "a.b", "あ.い", "あ. い", "「あ。」と言った。次", "『あ！』って。次", "(1) あ。(2) い。", "あ・・・い", "あ・・い。う",
@@ -519,7 +534,11 @@ fn gen_directed(rng: &mut Rng) -> String {
     if rng.chance(1, 2) {
         let cs: Vec<char> = s.chars().collect();
         let i = rng.below(cs.len() as u64 + 1) as usize;
-        let ins = if rng.chance(1, 2) { rng.pick(&TERMS).to_string() } else { rng.pick(&OTHER).to_string() };
+        let ins = match rng.below(5) {
+            0 | 1 => rng.pick(&TERMS).to_string(),
+            2 => rng.pick(&SPECIALS).to_string(),
+            _ => rng.pick(&OTHER).to_string(),
+        };
         s = cs[..i].iter().collect::<String>() + &ins + &cs[i..].iter().collect::<String>();
     }
     if rng.chance(1, 4) {
@@ -886,9 +905,17 @@ fn generated_cli_dict(dir: &Path, layers: &Lexicon) -> CliDict {
     CliDict { name: "generated".into(), cfg, res, dict, layers: Some(layers.clone()), pool: layers.flat() }
 }
 
-const CLI_PLAIN: [&str; 30] = [
+const CLI_PLAIN: [&str; 38] = [
+    "\\", "\\n", "^", "-", "*", "+", "|", "$",
     "。", "？", "！", "…", "?", "!", ".", "．", "、", ",", "・・・", "<br><br>", "（", "）", "「", "」", "(", ")", "と", "っ", "です", "の", "あ", "京都", "に",
     "行った", "1", "a", "　", "😀",
+];
+
+/// lines every run of the tool gets, whatever the seed: the only terminator is the repeated line-break tag, only a run
+/// of middle dots, mixtures, and specials right after terminators
+const CLI_DIRECTED: [&str; 16] = [
+    "あ<br><br>い", "京都<BR><br>に行った", "あ<br><BR><br>", "<br><br>あ", "あ<br>い", "あ・・・い", "あ・・い", "・・・・あ", "あ<br><br>い。う", "あ・・・い<br><br>う",
+    "あ（い<br><br>う）え<BR><BR>お", "あ<br><br>」い", "あいう。\\えお", "どこですか？\\\\srv", "あ。）\\い", "あ。^い-う|え$",
 ];
 
 fn cli_line(rng: &mut Rng, pool: &[String], term_words: &[String]) -> String {
@@ -1086,6 +1113,7 @@ fn cli_section(sink: &mut Sink, rng: &mut Rng, args: &Args) {
             lines.extend(seed_lines.drain(..usize::min(12, seed_lines.len())));
         }
         lines.push(String::new());
+        lines.extend(CLI_DIRECTED.iter().map(|l| l.to_string()));
         let file = dir.join(format!("input{}.txt", k));
         std::fs::write(&file, file_bytes(rng, &lines)).unwrap();
         cli_run(sink, &cli, d, flags, &lines, &file, false);
@@ -1115,7 +1143,7 @@ fn cli_replay(sink: &mut Sink, c: &Value, args: &Args) {
 pub fn run(args: &Args) {
     let mut sink = Sink::new("C16", &args.out, &["Model.Sentence"], args.seed, &args.tier);
     sink.shard_size = 120;
-    sink.rule("texts over an alphabet of terminators, periods/full-width dots, middle dots, commas, <br>/<BR> tags and fragments, all bracket kinds, alphanumerics incl. kanji numerals, quoting particles, whitespace, 1-4 byte characters; directed shapes (itemisation headers, decimals, quotes, nesting) with one-piece perturbations; limits 1..8, 4096, |text|-1..|text|+1; without checker or with a checker over a system dictionary + 0..3 user dictionaries compiled in memory (one-character terminator entries, substrings of the text around terminators, long words; words containing a terminator and words with the same start are put into different lexicons, both directions, some words entered twice); command-line tool built from the working tree: multi-line files (dictionary words incl. those containing terminators, plain pieces, brackets, blank lines, CRLF) x {default, -w} x --split-sentences {yes, default, only} x modes over the repository's test configuration and over a generated system + user dictionary; the sentences visible in the output (EOS lines / wakati lines) must be the model's with the dictionary words of the line as lexicon oracle; non-trivial = the text contains a terminator candidate; distinct by generated Coq term");
+    sink.rule("texts over an alphabet of terminators, periods/full-width dots, middle dots, commas, regex-special characters (backslash ^ - * + | $, often right after a terminator / bracket / comma), <br>/<BR> tags and fragments, all bracket kinds, alphanumerics incl. kanji numerals, quoting particles, whitespace, 1-4 byte characters; directed shapes (itemisation headers, decimals, quotes, nesting) with one-piece perturbations; limits 1..8, 4096, |text|-1..|text|+1; without checker or with a checker over a system dictionary + 0..3 user dictionaries compiled in memory (one-character terminator entries, substrings of the text around terminators, long words; words containing a terminator and words with the same start are put into different lexicons, both directions, some words entered twice); command-line tool built from the working tree: multi-line files (dictionary words incl. those containing terminators, plain pieces, brackets, blank lines, CRLF) x {default, -w} x --split-sentences {yes, default, only} x modes over the repository's test configuration and over a generated system + user dictionary; the sentences visible in the output (EOS lines / wakati lines) must be the model's with the dictionary words of the line as lexicon oracle; non-trivial = the text contains a terminator candidate; distinct by generated Coq term");
     if let Some(p) = &args.replay {
         let v: Value = serde_json::from_str(&std::fs::read_to_string(p).unwrap()).unwrap();
         let c = &v["case"];
